@@ -1,5 +1,6 @@
 """C10 — conditions decide what their names say; And/Or/Not evaluate every operand once."""
 import itertools
+import re
 import math
 
 from core import expr_str, strip, subexprs, AnchorMissing
@@ -318,6 +319,35 @@ def r6_logical(ctx):
     ctx.count("logical_scenarios", n)
 
 
+def r10_named_constructors(ctx):
+    """type level: `LessThanN::iterations(n)` / `::evaluations(n)` / `EveryN::iterations(n)` build the condition over the lens of the
+    state their NAME says - the only counters the crate has are Iterations and Evaluations, and the condition type is chosen by the
+    instantiation written in the constructor's body (every type mentioned there - locals, generic arguments and return types of its
+    calls - is read from the type-checked body)"""
+    F = ctx.facts
+    WATCHED = {"iterations": "mahf::state::common::Iterations", "evaluations": "mahf::state::common::Evaluations"}
+    n = 0
+    for f in F.all_fns:
+        if f.name not in WATCHED or f.kind not in ("AssocFn", "Fn") or not f.file.startswith("src/conditions/"):
+            continue
+        n += 1
+        seen = set()
+        texts = [l["ty"] for l in f.body.locals]
+        for g in F.with_closures(f):
+            for _b, t in g.body.calls():
+                texts.extend(str(x) for x in (t["f"].get("gargs") or []))
+                texts.append(t["f"].get("ret") or "")
+                texts.append(t["f"].get("self_ty") or "")
+        for tx in texts:
+            for w in WATCHED.values():
+                if re.search(re.escape(w) + r"\b", tx):
+                    seen.add(w)
+        want = {WATCHED[f.name]}
+        ctx.check(seen == want, "C10.R10", f.key, "watches-the-named-counter",
+                  "%s builds its condition over %s; its name promises %s" % (f.key.split("::", 2)[-1], sorted(x.split("::")[-1] for x in seen) or "no counter", WATCHED[f.name].split("::")[-1]), loc=f.loc())
+    ctx.floor("C10.R10", "conditions' named constructors (iterations / evaluations)", n, 3)
+
+
 def run(ctx):
     ctx.guard("C10.INIT", "init installs the configured state", lambda: __import__("initspec").check_for(ctx, "C10"))
     ctx.guard("C10.K17", "constructor fidelity", lambda: __import__("ctor").check_for(ctx, "C10", 22))
@@ -329,6 +359,7 @@ def run(ctx):
     ctx.guard("C10.R6", "And/Or/Not", lambda: r6_logical(ctx))
     ctx.guard("C10.R7", "ChangeOf memory key", lambda: r7_memory_key(ctx))
     ctx.guard("C10.R8", "lenses observe the state they name", lambda: r8_lenses(ctx))
+    ctx.guard("C10.R10", "named convenience constructors observe the state they are named after", lambda: r10_named_constructors(ctx))
     ctx.guard("C10.R9", "loops make exactly the scripted passes, each loop on its own counter", lambda: __import__("c16").r11_nested_loops(ctx, "C10.R9"))
 
 
